@@ -220,6 +220,19 @@ def reset_shared():
 
     SHARED["vjp_f4"] = make_vjp(f4)(xs)[0]
 
+    # operator objects built once and used by all threads at their own points, several times each
+    from autograd import hessian, hessian_vector_product, jacobian, make_hvp
+
+    def f5(x):
+        a = anp.tanh(x) * x
+        Y()
+        return anp.sum(a * a) + anp.sum(anp.sin(x))
+
+    SHARED["hvp_f5"] = hessian_vector_product(f5)
+    SHARED["hess_f5"] = hessian(f5)
+    SHARED["jac_f4"] = jacobian(f4)
+    SHARED["make_hvp_f5"] = make_hvp(f5)
+
 
 class LineYield:
     """thorough tier: yield at LINE events inside autograd/tracer.py (sys.monitoring)."""
@@ -366,7 +379,35 @@ def programs():
         # one pullback closure shared by all threads, per-thread cotangents
         return SHARED["vjp_f4"](onp.arange(1.0, 7.0) * a + b)
 
-    return {"T1": T1, "T2": T2, "T3": T3, "T4": T4, "T5": T5, "T6": T6, "T7": T7, "T8": T8, "T9": T9, "T10": T10, "T11": T11, "T12": T12, "T13": T13}
+    def T14(a, b):
+        # a differentiation whose output does not depend on its input (the "independent" exit of trace()),
+        # followed by an ordinary one
+        import warnings as _w
+
+        with _w.catch_warnings():
+            _w.simplefilter("ignore")
+            z = grad(lambda y: (Y(), 3.0 * anp.floor(y * a))[1])(b)
+            Y()
+            z2 = grad(lambda y: 2.0 * a)(b)
+        return onp.array([z, z2, grad(lambda y: y * y * a)(b)])
+
+    def T15(a, b):
+        # one hessian_vector_product(f) object shared by all threads: two products at this thread's point
+        x = onp.array([0.3, -1.2, 0.8]) * b
+        h1 = SHARED["hvp_f5"](x, onp.array([1.0, -0.5, 0.25]) * a)
+        Y()
+        h2 = SHARED["hvp_f5"](x, onp.array([0.5, 1.0, -1.0]))
+        return onp.concatenate([h1, h2])
+
+    def T16(a, b):
+        x = onp.array([0.4, 0.9, -0.7]) * a
+        H = SHARED["hess_f5"](x)
+        Y()
+        J = SHARED["jac_f4"](x * b)
+        hv = SHARED["make_hvp_f5"](x)[0](onp.array([1.0, 2.0, 3.0]) * b)
+        return onp.concatenate([onp.ravel(H), onp.ravel(J), hv])
+
+    return {"T1": T1, "T2": T2, "T3": T3, "T4": T4, "T5": T5, "T6": T6, "T7": T7, "T8": T8, "T9": T9, "T10": T10, "T11": T11, "T12": T12, "T13": T13, "T14": T14, "T15": T15, "T16": T16}
 
 
 PARAMS = [(2.0, 1.0), (1.5, 0.7), (0.8, 1.3), (1.1, 0.9)]
@@ -419,7 +460,7 @@ def explore(res, cfg, tier, seed, shard, nshard, budget):
             if violating <= 3:
                 s = dict(sig_base, symptom="schedule_interference")
                 res["violations"].append({"sig": s, "case": {"kind": "schedule", "cfg": cfg, "choices": choices}, "detail": bad + " | schedule " + key})
-        elif SCHED.switches_in_trace > 0 or (len(set(choices)) > 1 and any(nm in ("T11", "T12", "T13") for nm in names)):
+        elif SCHED.switches_in_trace > 0 or (len(set(choices)) > 1 and any(nm in ("T11", "T12", "T13", "T15", "T16") for nm in names)):
             k = sig_key(dict(sig_base, sched=key))
             res["judged"][k] = 1
         else:
@@ -469,7 +510,7 @@ def explore(res, cfg, tier, seed, shard, nshard, budget):
 
 def free_running(res, seed, iters, nthreads):
     P = programs()
-    names = ["T1", "T3", "T6", "T2", "T4", "T5", "T7", "T8", "T9", "T11", "T13"]
+    names = ["T1", "T3", "T6", "T2", "T4", "T5", "T7", "T8", "T9", "T11", "T13", "T14", "T15", "T16"]
     reset_shared()
     SHARED["vjp_f4"](onp.ones(6))  # the free-running stress shares closures that have been used once
     old = sys.getswitchinterval()
@@ -540,6 +581,13 @@ def configs(tier):
     cf.append({"progs": ["T11", "T11"], "kinds": ["explicit", "enter_after"], "mode": "dfs"})
     cf.append({"progs": ["T11", "T12"], "kinds": ["explicit"], "mode": "dfs"})
     cf.append({"progs": ["T12", "T12"], "kinds": ["explicit", "enter_after"], "mode": "dfs"})
+    cf.append({"progs": ["T14", "T1"], "kinds": ["enter_after", "exit_after"], "mode": "dfs", "budget": 2500})
+    cf.append({"progs": ["T14", "T1"], "kinds": ["enter_before", "exit_after", "explicit"], "mode": "random", "n": 300})
+    cf.append({"progs": ["T14", "T14", "T1"], "kinds": ["exit_after", "enter_after"], "mode": "random", "n": 300})
+    cf.append({"progs": ["T15", "T15"], "kinds": ["explicit"], "mode": "dfs", "budget": 2500})
+    cf.append({"progs": ["T15", "T15"], "kinds": ["explicit", "exit_before", "enter_before"], "mode": "random", "n": 300})
+    cf.append({"progs": ["T15", "T16"], "kinds": ["explicit"], "mode": "dfs", "budget": 2500})
+    cf.append({"progs": ["T16", "T16"], "kinds": ["explicit", "enter_after"], "mode": "random", "n": 200})
     cf.append({"progs": ["T13", "T13"], "kinds": ["rule"], "mode": "dfs"})
     cf.append({"progs": ["T13", "T13", "T13"], "kinds": ["rule"], "mode": "random", "n": 200})
     cf.append({"progs": ["T1", "T13"], "kinds": ["rule", "enter_after"], "mode": "random", "n": 200})
@@ -576,7 +624,7 @@ def run_shard(pid, tier, seed, idx, n):
                 # LINE events inside the backward pass machinery (toposort, backward_pass, add_outgrads)
                 ly = LineYield(files=("util.py", "core.py"), kind="line_bp")
                 ly.start()
-            explore(res, c, tier, seed, idx, n, budget)
+            explore(res, c, tier, seed, idx, n, min(budget, c["budget"] * (1 if tier == "quick" else 5)) if c.get("budget") else budget)
         except Exception:
             res["not_judged"]["harness_error"] = res["not_judged"].get("harness_error", 0) + 1
             res["sets"].setdefault("harness_errors", set()).add(traceback.format_exc()[-500:])
